@@ -314,21 +314,23 @@ def r3(run: Run, src, rt):
 
 
 def r4(run: Run, src):
-    ct = src.cls('CellTranslator')
-    fi = ct.methods.get('_set_cell_to_context')
-    tests = [n for n in ast.walk(fi.node) if isinstance(n, ast.If) and
-             any('Lexer' in ast.unparse(s) for s in n.body if not isinstance(s, ast.If))]
-    if len(tests) != 1:
-        raise AnalysisError('C18.R4', 'the formula test in CellTranslator was not found')
-    t = tests[0].test
-    conj = t.values if isinstance(t, ast.BoolOp) and isinstance(t.op, ast.And) else [t]
-    texts = [ast.unparse(c) for c in conj]
-    is_str = any(x.startswith('isinstance(') and x.endswith(', str)') for x in texts)
-    starts = any(x.endswith(".find('=') == 0") or x.endswith(".startswith('=')") or x.endswith("[0] == '='") or
-                 x.endswith("[:1] == '='") for x in texts)
-    run.check(is_str and starts and len(conj) == 2, 'C18.R4', 'CellTranslator/formula-test', 'formula-test',
-              f'a cell is treated as a formula when `{ast.unparse(t)[:80]}`; expected: it is a str and starts with "="',
-              fact=ast.unparse(t)[:80], loc=loc_of(fi.module.path, t))
+    from .common import normalized_method, flat_conditions
+    fi, fn = normalized_method(src, 'CellTranslator', '_set_cell_to_context')
+    parents = parent_map(fn)
+    lex = [n for n in ast.walk(fn) if isinstance(n, ast.Call) and ast.unparse(n.func) in ('Lexer.parse',)]
+    if len(lex) != 1:
+        raise AnalysisError('C18.R4', 'the formula branch (Lexer.parse) in CellTranslator was not found')
+    conds = flat_conditions(path_conditions(fn, lex[0], parents))
+    # conditions under which a cell text is lexed as a formula, apart from the "not translated yet" memo test
+    own = [(t, pol) for t, pol in conds if 'get_cell' not in ast.unparse(t) and 'has_handled' not in ast.unparse(t)]
+    texts = [(ast.unparse(t), pol) for t, pol in own]
+    is_str = any(x.startswith('isinstance(') and x.endswith(', str)') and pol for x, pol in texts)
+    starts = any((x.endswith(".find('=') == 0") or x.endswith(".startswith('=')") or x.endswith("[0] == '='") or
+                  x.endswith("[:1] == '='")) and pol for x, pol in texts)
+    shown = ' and '.join(('' if pol else 'not ') + x for x, pol in texts)
+    run.check(is_str and starts and len(texts) == 2, 'C18.R4', 'CellTranslator/formula-test', 'formula-test',
+              f'a cell is treated as a formula when `{shown[:100]}`; expected: it is a str and starts with "="',
+              fact=shown[:80], loc=loc_of(fi.module.path, lex[0]))
 
 
 def run(run: Run):
